@@ -110,6 +110,10 @@ KuCases == { Case("ku", [bg EXCEPT !.ku = SetToSortedSeq(S)], TRUE, "ed25519", "
 PathLenCases == { Case("pathlen", [bg EXCEPT !.isCa = CaC(n)], TRUE, "ed25519", "ed25519", Kid("sha256"), "keypair") :
                     n \in 0..255, bg \in Bgs }
 
+(* a path length together with key usages that do or do not include keyCertSign (bit 5) *)
+PathLenKuCases == { Case("pathlen-ku", [Base EXCEPT !.isCa = CaC(n), !.ku = ku, !.aki = aki], self, "ed25519", "ed25519", Kid("sha256"), "keypair") :
+                      n \in {0, 1, 255}, ku \in {<<>>, <<0>>, <<6>>, <<0, 6>>, <<5>>, <<0, 5, 6>>, <<7, 8>>}, aki \in Bool, self \in Bool }
+
 PrefixCases == { Case("prefix", [Base EXCEPT !.isCa = CaU, !.nc = [k |-> "some", perm |-> <<StIp(a, p)>>, excl |-> <<StIp(a, 255 - p)>>]],
                       TRUE, "ed25519", "ed25519", Kid("sha256"), "keypair") :
                    p \in 0..255,
@@ -159,8 +163,14 @@ EkuCases == { Case("eku", [bg EXCEPT !.eku = e], TRUE, "ed25519", "ed25519", Kid
 CustomCases == { Case("custom", [bg EXCEPT !.custom = cu], self, "ed25519", "ed25519", Kid("sha256"), "keypair") :
                    cu \in {<<CuNonCrit>>, <<CuCrit>>, <<CuCrit, CuNonCrit>>,
                            <<[oid |-> "2.999.1", crit |-> TRUE, content |-> "3000"]>>,
-                           <<[oid |-> "1.3.6.1.4.1.55555.2", crit |-> FALSE, content |-> "0101ff"]>>},
+                           <<[oid |-> "1.3.6.1.4.1.55555.2", crit |-> FALSE, content |-> "0101ff"]>>,
+                           <<[oid |-> "1.3.6.1.4.1.55555.3", crit |-> TRUE, content |-> "0403010203"], [oid |-> "1.3.6.1.4.1.55555.4", crit |-> TRUE, content |-> "0500"]>>,
+                           <<[oid |-> "1.3.6.1.4.1.55555.5", crit |-> TRUE, content |-> "3000"]>>},
                    self \in Bool, bg \in Bgs }
+
+(* an extension of the caller's own under the OID of the authority key identifier, where rcgen's own is not asked for *)
+CustomAkiCases == { Case("custom", [Base EXCEPT !.custom = <<[oid |-> "2.5.29.35", crit |-> cr, content |-> "3000"]>>, !.isCa = ca], self, "ed25519", "ed25519", Kid("sha256"), "keypair") :
+                      cr \in Bool, ca \in {NoCa, CaU}, self \in Bool }
 
 Algs == {"ed25519", "ecdsa-p256-sha256", "ecdsa-p384-sha384", "rsa-sha256", "rsa-sha384", "rsa-sha512"}
 AlgCases == { Case("alg", [Bg2 EXCEPT !.isCa = IF self THEN CaU ELSE NoCa], self, sa, ia, Kid("sha256"), "keypair") :
@@ -189,8 +199,8 @@ OutsideIssuerCases == { Case("validity", [Base EXCEPT !.nb = nb, !.na = na, !.is
                           na \in {Tm(2039, 12, 31, 23, 59, 59), Tm(2040, 1, 1, 0, 0, 0), Tm(2040, 1, 1, 0, 0, 1), Tm(2041, 6, 1, 0, 0, 0), Tm(2055, 1, 1, 0, 0, 0),
                                   Tm(9999, 12, 31, 23, 59, 59)},
                           ca \in {NoCa, CaU} }
-Cases == OutsideIssuerCases \cup LongKidCases \cup AutoSerialCases \cup PresenceCases \cup KuCases \cup PathLenCases \cup PrefixCases \cup SanCases \cup NcCases \cup DnCases
-         \cup KidCases \cup SerialCases \cup EkuCases \cup CustomCases \cup AlgCases
+Cases == PathLenKuCases \cup OutsideIssuerCases \cup LongKidCases \cup AutoSerialCases \cup PresenceCases \cup KuCases \cup PathLenCases \cup PrefixCases \cup SanCases \cup NcCases \cup DnCases
+         \cup KidCases \cup SerialCases \cup EkuCases \cup CustomCases \cup CustomAkiCases \cup AlgCases
 
 (* ---- abstract keys for the model (the harness substitutes real keys and real digests) ---- *)
 Filler18 == <<7, 7, 7, 7, 7, 7, 7, 7, 7, 7, 7, 7, 7, 7, 7, 7, 7, 9>>
